@@ -797,3 +797,7 @@ META = {
     'technique': 'static analysis: linear-form check of removal indices, exception-aware path enumeration of the loop body with constant tracking, abstract interpretation of the ejection predicate over all orderings, who-may-raise and first-acceptor path rules',
     'design_ref': 'DESIGN.md section 5, C07',
 }
+
+
+from . import shared as _shared
+_shared.register('C07', 'C07')
